@@ -1145,6 +1145,12 @@ pub fn cases(tier: Tier) -> Vec<Case> {
             for (src, want) in [("abc   \n       def", "abcdef"), ("a\nb", "ab"), ("a \r\n\tb", "ab"), ("a b\n\n  c d", "a bc d")] {
                 add(&format!("cstring:{ty}"), ty, "", format!("\"{src}\""), Val::Str(want.to_string()), "multi-line".into());
             }
+            // ... with doubled quotes on the first, the last and a middle line (NumericString / PrintableString have no quote)
+            if !matches!(*ty, "PrintableString") {
+                for (src, want) in [("\"\"yes\"\",\n  she said", "\"yes\",she said"), ("she said\n \"\"yes\"\"", "she said\"yes\""), ("a\n b\"\"c\n d", "ab\"cd"), ("\"\"\n\"\"", "\"\"")] {
+                    add(&format!("cstring:{ty}"), ty, "", format!("\"{src}\""), Val::Str(want.to_string()), "multi-line-with-doubled-quotes".into());
+                }
+            }
         }
         // OCTET STRING types of fixed size (FixedOctetString in the bindings), directly and through a reference
         for (v, bytes) in [("'ABCD'H", vec![0xABu8, 0xCD]), ("'0000'H", vec![0, 0]), ("'0000000110000000'B", vec![1, 0x80])] {
